@@ -717,11 +717,39 @@ func execMustAgree(n *Node, sc *Scenario) *Violation {
 	if err1 != nil || err2 != nil {
 		return nil // a receiver with two union members set has no tree form: nothing to compare
 	}
+	// agreement is about the Go values the two decoders leave behind, also about which
+	// containers are nil and which are empty (a caller that stores into a decoded map sees
+	// the difference as a panic)
+	if a, m := nilContainers(gc), nilContainers(gm); a != m {
+		return mismatch("must-disagrees-reused|"+kind+"|nil-containers", fmt.Sprintf("after decoding the same valid encodings UnmarshalBebop leaves %d nil arrays/maps, MustUnmarshalBebop %d", a, m),
+			map[string]string{"record_kind": kind, "path": "nil-containers"})
+	}
 	if d := val.Diff(b.Schema, tt, val.Canon(b.Schema, tt, gc), val.Canon(b.Schema, tt, gm)); d != "" {
 		return mismatch("must-disagrees-reused|"+kind+"|"+pathShape(d), fmt.Sprintf("after decoding two valid encodings in a row into one receiver each, UnmarshalBebop and MustUnmarshalBebop hold different values: %s", d),
 			map[string]string{"record_kind": kind, "path": pathShape(d)})
 	}
 	return nil
+}
+
+// nilContainers counts the arrays and maps of a tree read back from Go that were nil.
+func nilContainers(v val.Value) int {
+	n := 0
+	if v.Nil {
+		n++
+	}
+	for _, e := range v.Elems {
+		n += nilContainers(e)
+	}
+	for _, e := range v.Vals {
+		n += nilContainers(e)
+	}
+	for _, f := range v.Fields {
+		n += nilContainers(f.V)
+	}
+	if v.Body != nil {
+		n += nilContainers(*v.Body)
+	}
+	return n
 }
 
 // repeatKeys sends the first key of every non-empty map once more, at the end, with the
